@@ -1,6 +1,330 @@
-//! C17 — not built yet (stub).
-use vf_core::Runner;
+//! C17 — a KML statement is all-or-nothing and versions each element once.
+//!
+//! Histories of generated KML statements run through the real parser and a
+//! system session on a nexus over an in-memory store (cognitive-memory profile +
+//! the test package, a second space holding one concept). Every history uses two
+//! nexus instances: the reference world W executes every statement, the twin T
+//! only the statements W committed — it never sees a refused statement or a dry
+//! run. Oracle clauses, all from the property statement:
+//!
+//! 1. a refused or dry-run statement leaves everything observable as it was:
+//!    (layer A) every raw row of the eight collections a statement can write that
+//!    is not in state `pending` is unchanged (the counter of the space row may
+//!    advance), and a battery of ~80 KQL / META reads (every kind × typed /
+//!    by-key / by-name / by-state patterns, counts, joins, BELIEF, AS OF reads at
+//!    the current and at a past coordinate, DESCRIBE SPACE / PRIMER / SNAPSHOT /
+//!    EXECUTION CONTEXT, HISTORY SPACE / ELEMENT, CHANGES, DESCRIBE TRANSACTION
+//!    by id and by idempotency key, SEARCH, LIST SPACES) answers the same before
+//!    and after; (layer B) after every statement both worlds execute, the
+//!    statement's outcome and the whole battery agree between W and T after
+//!    renaming ids through handles / change lists, blanking timestamps and
+//!    tokens, and comparing sequence numbers by rank; a statement W refuses
+//!    although the harness sees no reason in the observable state is re-sent to a
+//!    fresh world that replayed only the committed statements, and must be
+//!    refused there too;
+//! 2. a committed statement gets a sequence number greater than every earlier
+//!    one (burnt ones included), every element whose row changed went up by
+//!    exactly one version (new ones start at 1), carries the statement's
+//!    sequence / transaction, is in the change list with that version and got
+//!    exactly one element-version row; every other row is untouched; exactly one
+//!    journal row was appended and it matches the receipt (in both worlds);
+//! 3. no two propositions carry one tuple and no two concepts of a type one key
+//!    (rows not in state `pending`), and a handle an ENSURE bound names a row
+//!    with exactly the tuple the clause wrote (so one tuple has one id over the
+//!    whole history).
+//!
+//! Also under (2): an element whose row differs only in what the engine stamps
+//! (version / seq / updated_*) although at most one clause of the statement was
+//! aimed at it had its version burnt ("a no-effect final state changes nothing",
+//! tx.rs); two clauses that undo each other are not judged.
+//!
+//! Three genuine defects were found with this check on the pinned tree and
+//! repaired in /repo (known_findings.json: fixed); their signatures stay:
+//! `SIG_DUP_TUPLE` (immediate: the worlds diverge), `SIG_SHELLS` and `SIG_BURNT`
+//! (reported at the end of the history, after every other clause was evaluated,
+//! so the search continues behind them). At start-up the first regression decides
+//! whether the dup-tuple shape must still be left out of generated blocks.
+//! `VERIF_C17_TRACE=1` prints refusals the harness did not predict.
+
+mod check;
+mod stmt;
+mod world;
+
+use check::*;
+use proptest::prelude::*;
+use serde::{Deserialize, Serialize};
+use stmt::*;
+use vf_core::{CaseCtx, Runner};
+
+#[derive(Clone, Debug, Serialize, Deserialize)]
+pub struct History {
+    /// leave out the later clause when one block ENSUREs / ASSERTs one new tuple twice
+    pub exclude_dup_tuple: bool,
+    pub stmts: Vec<Stmt>,
+}
+
+fn seed_stmt() -> Stmt {
+    Stmt { clauses: vec![Clause::Raw { text: SEED.to_string(), dup_new_tuple: false, clauses: 9 }], wrap: false, mode: Mode::Real, style: Style::Params, idem: None, resend: false }
+}
+
+fn run_history(h: &History, ctx: &mut CaseCtx) -> Result<(), Fail> {
+    let mut run = Run::new(ctx, Cfg { exclude_dup_tuple: h.exclude_dup_tuple })?;
+    run.statement(&seed_stmt())?;
+    for s in &h.stmts {
+        run.statement(s)?;
+    }
+    run.finish()
+}
+
+// ---------------------------------------------------------------------------
+// generation
+// ---------------------------------------------------------------------------
+
+fn ref_s() -> impl Strategy<Value = Ref> {
+    prop_oneof![5 => any::<u8>().prop_map(Ref::Own), 8 => any::<u16>().prop_map(Ref::Old), 1 => Just(Ref::Missing)]
+}
+/// references that should name something
+fn live_ref() -> impl Strategy<Value = Ref> {
+    prop_oneof![5 => any::<u8>().prop_map(Ref::Own), 8 => any::<u16>().prop_map(Ref::Old)]
+}
+fn old_ref() -> impl Strategy<Value = Ref> {
+    any::<u16>().prop_map(Ref::Old)
+}
+fn guard_s() -> impl Strategy<Value = Guard> {
+    prop_oneof![14 => Just(Guard::None), 6 => Just(Guard::Hold), 1 => (0u8..3).prop_map(Guard::Off)]
+}
+fn sguard_s() -> impl Strategy<Value = SGuard> {
+    prop_oneof![14 => Just(SGuard::None), 6 => Just(SGuard::Hold), 1 => Just(SGuard::Wrong)]
+}
+fn obj_s() -> impl Strategy<Value = Obj> {
+    prop_oneof![5 => live_ref().prop_map(Obj::Ref), 1 => (0u8..4).prop_map(Obj::Lit)]
+}
+fn action_s() -> impl Strategy<Value = Action> {
+    prop_oneof![
+        4 => (any::<u8>(), any::<u8>()).prop_map(|(a, v)| Action::Attr(a, v)),
+        1 => any::<u8>().prop_map(Action::UnsetAttr),
+        2 => any::<u8>().prop_map(Action::Name),
+        1 => any::<u8>().prop_map(Action::Facet),
+    ]
+}
+
+fn fault_s() -> impl Strategy<Value = Fault> {
+    prop_oneof![
+        // plan
+        2 => Just(Fault::UnknownType),
+        2 => live_ref().prop_map(Fault::UnknownPredicate),
+        2 => live_ref().prop_map(Fault::RangeMismatch),
+        2 => live_ref().prop_map(Fault::TypeMismatch),
+        1 => Just(Fault::MissingParamEarly),
+        2 => Just(Fault::MissingParamLate),
+        2 => live_ref().prop_map(Fault::ImmutableField),
+        1 => Just(Fault::FacetRange),
+        2 => Just(Fault::UnknownField),
+        2 => Just(Fault::DanglingTarget),
+        1 => Just(Fault::DanglingUpsert),
+        1 => old_ref().prop_map(Fault::SupersedeSelf),
+        1 => old_ref().prop_map(Fault::RetractNonAssertion),
+        // commit
+        4 => (any::<u8>(), any::<u8>()).prop_map(|(ty, key)| Fault::DupKeyPair { ty, key }),
+        4 => any::<u16>().prop_map(Fault::DupKeyExisting),
+        3 => (any::<u8>(), any::<u8>()).prop_map(|(ty, key)| Fault::UpsertMissTwice { ty, key }),
+        3 => (any::<u8>(), any::<u8>()).prop_map(|(ty, key)| Fault::CreateAndUpsertMiss { ty, key }),
+        5 => live_ref().prop_map(Fault::ForeignEndpoint),
+        4 => live_ref().prop_map(Fault::ForeignActor),
+        // parse
+        1 => Just(Fault::Syntax),
+        1 => Just(Fault::DupHandle),
+        1 => Just(Fault::UnboundHandle),
+        1 => live_ref().prop_map(Fault::ProtectedField),
+    ]
+}
+
+fn clause_s() -> impl Strategy<Value = Clause> {
+    let opt_u8 = || prop::option::weighted(0.4, any::<u8>());
+    prop_oneof![
+        10 => (any::<u8>(), opt_u8(), any::<u8>(), prop::option::weighted(0.5, (any::<u8>(), any::<u8>())), opt_u8()).prop_map(|(ty, key, name, attr, facet)| Clause::CreateConcept { ty, key, name, attr, facet }),
+        10 => (
+            prop_oneof![5 => (prop::option::weighted(0.85, any::<u8>()), any::<u8>()).prop_map(|(ty, key)| Sel::Key { ty, key }), 4 => (any::<u16>(), any::<bool>()).prop_map(|(pick, typed)| Sel::Existing { pick, typed }), 3 => old_ref().prop_map(Sel::Id)],
+            guard_s(), opt_u8(), prop::option::weighted(0.6, (any::<u8>(), any::<u8>())), prop::option::weighted(0.2, any::<u8>())
+        ).prop_map(|(sel, guard, name, attr, unset)| Clause::Upsert { sel, guard, name, attr, unset }),
+        10 => (any::<bool>(), live_ref(), any::<u8>(), obj_s(), guard_s()).prop_map(|(named, s, pred, o, guard)| Clause::Ensure { named, s, pred, o, guard }),
+        6 => (any::<bool>(), any::<u16>(), guard_s(), prop::option::weighted(0.35, live_ref())).prop_map(|(named, pick, guard, assert_by)| Clause::Reensure { named, pick, guard, assert_by }),
+        6 => (any::<bool>(), live_ref(), any::<u8>(), obj_s(), live_ref(), opt_u8(), prop::option::weighted(0.4, live_ref()), prop::bool::weighted(0.4)).prop_map(|(named, s, pred, o, by, conf, ev, superseding)| Clause::Assert { named, s, pred, o, by, conf, ev, superseding }),
+        5 => (any::<u8>(), prop::option::weighted(0.3, live_ref())).prop_map(|(payload, generated_by)| Clause::CreateEvidence { payload, generated_by }),
+        6 => (live_ref(), prop::option::weighted(0.7, live_ref()), any::<u8>(), prop::option::weighted(0.4, live_ref())).prop_map(|(prop, by, stance, ev)| Clause::CreateAssertion { prop, by, stance, ev }),
+        3 => (prop::option::weighted(0.4, live_ref()), prop::option::weighted(0.5, live_ref())).prop_map(|(input, output)| Clause::CreateActivity { input, output }),
+        14 => (ref_s(), prop::bool::weighted(0.25), guard_s(), action_s()).prop_map(|(target, on_prop, guard, action)| Clause::Update { target, on_prop, guard, action }),
+        3 => (old_ref(), sguard_s()).prop_map(|(target, guard)| Clause::Retract { target, guard }),
+        3 => (old_ref(), old_ref(), sguard_s()).prop_map(|(old, new, guard)| Clause::Supersede { old, new, guard }),
+        2 => (old_ref(), live_ref()).prop_map(|(old, new)| Clause::Correct { old, new }),
+        2 => (old_ref(), any::<u8>(), sguard_s()).prop_map(|(target, to, guard)| Clause::Transition { target, to, guard }),
+        4 => (old_ref(), any::<u8>(), any::<u8>(), guard_s()).prop_map(|(target, kind, class, guard)| Clause::Retention { target, kind, class, guard }),
+        3 => (old_ref(), any::<u8>(), sguard_s()).prop_map(|(target, kind, guard)| Clause::Archive { target, kind, guard }),
+        1 => (old_ref(), any::<u8>(), sguard_s()).prop_map(|(target, kind, guard)| Clause::Tombstone { target, kind, guard }),
+        2 => (old_ref(), old_ref(), guard_s()).prop_map(|(source, into, guard)| Clause::Merge { source, into, guard }),
+        2 => (any::<u8>(), (any::<u8>(), any::<u8>()), any::<u8>()).prop_map(|(ty, attr, limit)| Clause::Sweep { ty, attr, limit }),
+    ]
+}
+
+/// A statement: 1-5 clauses; with probability ~0.4 one clause built to be
+/// refused is inserted at a random position; with probability ~0.3 a group of
+/// 2-5 clauses aimed at one element (same reference) is appended.
+fn stmt_s() -> impl Strategy<Value = Stmt> {
+    let body = (
+        prop::collection::vec(clause_s(), 1..=5),
+        prop::option::weighted(0.35, (fault_s(), any::<u16>())),
+        prop::option::weighted(0.3, (old_ref(), prop::collection::vec((guard_s(), action_s()), 2..=5))),
+    )
+        .prop_map(|(mut clauses, fault, same)| {
+            if let Some((target, acts)) = same {
+                clauses.truncate(3);
+                for (guard, action) in acts {
+                    clauses.push(Clause::Update { target: target.clone(), on_prop: false, guard, action });
+                }
+            }
+            if let Some((f, at)) = fault {
+                let i = vf_core::pick_idx(at, clauses.len() + 1);
+                clauses.insert(i, Clause::Fault(f));
+            }
+            clauses
+        });
+    (
+        body,
+        any::<bool>(),
+        prop_oneof![12 => Just(Mode::Real), 2 => Just(Mode::Dry), 3 => Just(Mode::DryThenReal), 1 => Just(Mode::Preview), 2 => Just(Mode::PreviewThenReal)],
+        prop_oneof![2 => Just(Style::Params), 1 => Just(Style::Literal)],
+        prop::option::weighted(0.25, (any::<u8>(), any::<bool>())),
+        prop::bool::weighted(0.12),
+    )
+        .prop_map(|(clauses, wrap, mode, style, idem, resend)| Stmt { clauses, wrap, mode, style, idem, resend })
+}
+
+fn history_s(exclude_dup_tuple: bool) -> impl Strategy<Value = History> {
+    prop::collection::vec(stmt_s(), 4..=20).prop_map(move |stmts| History { exclude_dup_tuple, stmts })
+}
+
+// ---------------------------------------------------------------------------
+// regressions
+// ---------------------------------------------------------------------------
+
+#[derive(Clone, Debug, Serialize, Deserialize)]
+pub struct Regression {
+    pub name: String,
+    pub history: History,
+}
+
+/// Counts the clauses of a fixed text by their leading keywords.
+fn clauses_of(text: &str) -> u8 {
+    let t = text.replace("CREATE ASSERTION", "CREATE_A").replace("SET RETENTION", "SET_RETENTION");
+    ["CREATE ", "CREATE_A", "UPSERT ", "ENSURE ", "ASSERT ", "UPDATE ", "RETRACT ", "SUPERSEDE ", "CORRECT ", "TRANSITION ", "SET_RETENTION", "ARCHIVE ", "TOMBSTONE ", "MERGE "].iter().map(|k| t.matches(k).count()).sum::<usize>() as u8
+}
+
+fn raw(text: &str) -> Stmt {
+    Stmt { clauses: vec![Clause::Raw { text: text.to_string(), dup_new_tuple: false, clauses: clauses_of(text) }], wrap: false, mode: Mode::Real, style: Style::Params, idem: None, resend: false }
+}
+fn raw_dup(text: &str) -> Stmt {
+    Stmt { clauses: vec![Clause::Raw { text: text.to_string(), dup_new_tuple: true, clauses: clauses_of(text) }], wrap: false, mode: Mode::Real, style: Style::Params, idem: None, resend: false }
+}
+
+/// Follow-ups that look at what a refused statement may have left behind.
+fn follow_ups() -> Vec<Stmt> {
+    vec![
+        raw(r#"ENSURE PROPOSITION ?p ({eC0}, "same_as", {eC1})"#),
+        raw(r#"UPSERT CONCEPT ?u { MATCH {type: "Person", key: "k5"} SET FIELDS {name: "echo"} }"#),
+        raw(r#"UPSERT CONCEPT ?u { MATCH {key: "k0"} SET ATTRIBUTES {note: "hit"} }"#),
+        raw(r#"CREATE CONCEPT ?n { TYPE "Person" NAME "golf" }"#),
+        raw(r#"UPDATE {gC} SET ATTRIBUTES {note: "ghost"}"#),
+        raw(r#"UPDATE {gP} SET ATTRIBUTES {note: "ghost"}"#),
+        raw(r#"UPDATE {C0} EXPECT VERSION {vC0} SET ATTRIBUTES {note: "after"}"#),
+    ]
+}
+
+fn regressions() -> Vec<Regression> {
+    let mut v = vec![];
+    let mut add = |name: &str, stmts: Vec<Stmt>| {
+        let mut all = stmts;
+        all.extend(follow_ups());
+        v.push(Regression { name: name.to_string(), history: History { exclude_dup_tuple: false, stmts: all } });
+    };
+    // the confirmed defect (DESIGN §8.2a): one new tuple under two handles
+    add("ensure_same_new_tuple_twice", vec![raw_dup(r#"MUTATE { ENSURE PROPOSITION ?p1 ({eC0}, "same_as", {eC1}) ENSURE PROPOSITION ?p2 ({eC0}, "same_as", {eC1}) }"#)]);
+    add(
+        "assert_same_new_tuple_twice",
+        vec![raw_dup(r#"MUTATE { ASSERT ?a1 ({eC0}, "links", {eC3}) { by: {rC0}, mode: "stated", confidence: 0.7 } ASSERT ?a2 ({eC0}, "links", {eC3}) { by: {rC1}, mode: "stated", stance: "reject" } }"#)],
+    );
+    add(
+        "ensure_same_new_tuple_twice_with_new_subject",
+        vec![raw_dup(r#"MUTATE { CREATE CONCEPT ?n { TYPE "Person" NAME "echo" SET FIELDS {key: "k4"} } ENSURE PROPOSITION ?p1 (?n, "prefers", {eC2}) ENSURE PROPOSITION ?p2 (?n, "prefers", {eC2}) UPDATE {C0} SET ATTRIBUTES {note: "same statement"} }"#)],
+    );
+    add("ensure_existing_tuple_twice", vec![raw(r#"MUTATE { ENSURE PROPOSITION ?p1 ({eC0}, "prefers", {eC2}) ENSURE PROPOSITION ?p2 ({eC0}, "prefers", {eC2}) }"#)]);
+    // refusals at commit (DESIGN §8.2): leftover shells
+    add("duplicate_key_in_one_block", vec![raw(r#"MUTATE { CREATE CONCEPT ?a { TYPE "Preference" NAME "golf" SET FIELDS {key: "k3"} } CREATE CONCEPT ?b { TYPE "Preference" NAME "hotel" SET FIELDS {key: "k3"} } ENSURE PROPOSITION ?p ({eC0}, "prefers", ?a) }"#)]);
+    add("key_of_an_existing_concept", vec![raw(r#"MUTATE { CREATE CONCEPT ?a { TYPE "Person" NAME "india" SET FIELDS {key: "k0"} } CREATE EVIDENCE ?e { SET FIELDS {evidence_class: "user_statement", payload: "payload one"} } UPDATE {C1} SET ATTRIBUTES {note: "x"} }"#)]);
+    add("upsert_miss_twice", vec![raw(r#"MUTATE { UPSERT CONCEPT ?a { MATCH {type: "Status", key: "k2"} SET FIELDS {name: "juliet"} } UPSERT CONCEPT ?b { MATCH {type: "Status", key: "k2"} SET FIELDS {name: "kilo"} } }"#)]);
+    add("cross_space_endpoint", vec![raw(r#"MUTATE { CREATE CONCEPT ?a { TYPE "Service" NAME "lima" } ENSURE PROPOSITION ?p (?a, "links", {F}) CREATE ASSERTION ?x { SET FIELDS {proposition: ?p, asserted_by: {rC0}, stance: "support", mode: "stated"} } CREATE ACTIVITY ?act { SET FIELDS {activity_class: "tool_execution"} } }"#)]);
+    // refusals while planning, after other clauses staged something
+    add("failing_expect_version_after_creates", vec![raw(r#"MUTATE { CREATE CONCEPT ?a { TYPE "Person" NAME "mike" } ENSURE PROPOSITION ?p (?a, "prefers", {eC2}) UPDATE {C0} EXPECT VERSION 99 SET ATTRIBUTES {note: "never"} }"#)]);
+    add("supersede_missing_assertion", vec![raw(r#"MUTATE { CREATE ASSERTION ?n { SET FIELDS {proposition: {P0}, asserted_by: {rC0}, stance: "support", mode: "stated", confidence: 0.6} } SUPERSEDE ASSERTION "A-990001" BY ?n }"#)]);
+    add("unknown_type_last", vec![raw(r#"MUTATE { UPDATE {C0} SET FIELDS {name: "foxtrot"} ARCHIVE {C3} CREATE CONCEPT ?z { TYPE "Spaceship" NAME "enterprise" } }"#)]);
+    add("immutable_field_after_staged_updates", vec![raw(r#"MUTATE { UPDATE {C0} SET FIELDS {name: "foxtrot"} ARCHIVE {C3} SET RETENTION {A0} {retention_class: "short"} UPDATE {C1} SET FIELDS {key: "moved"} }"#)]);
+    add("missing_parameter_last", vec![raw(r#"MUTATE { UPSERT CONCEPT ?u { MATCH {type: "Person", key: "k0"} SET ATTRIBUTES {description: "staged"} } RETRACT ASSERTION {A1} CREATE EVIDENCE ?e { SET FIELDS {evidence_class: "user_statement", payload: :never_bound} } }"#)]);
+    // committed: one element, five clauses
+    add(
+        "five_clauses_one_element",
+        vec![raw(r#"MUTATE { UPDATE {C0} SET ATTRIBUTES {note: "one"} UPDATE {C0} SET FIELDS {name: "delta"} UPSERT CONCEPT ?u { MATCH {key: "k0"} SET ATTRIBUTES {description: "two"} } SET RETENTION {C0} {retention_class: "standard"} UPDATE {C0} SET FACET "MnemonicState" {salience: 0.3} }"#)],
+    );
+    // dry run of a statement that creates, then the statement itself with a key, sent twice
+    let mut dry = raw(r#"MUTATE { CREATE CONCEPT ?a { TYPE "Person" NAME "echo" SET FIELDS {key: "k4"} } ENSURE PROPOSITION ?p (?a, "prefers", {eC2}) }"#);
+    dry.mode = Mode::DryThenReal;
+    dry.idem = Some((0, false));
+    dry.resend = true;
+    add("dry_run_then_real_then_resend", vec![dry]);
+    let mut pv = raw(r#"MUTATE { CREATE CONCEPT ?a { TYPE "Source" NAME "foxtrot" } UPDATE {C1} SET ATTRIBUTES {note: "previewed"} ARCHIVE {E0} }"#);
+    pv.mode = Mode::PreviewThenReal;
+    pv.style = Style::Literal;
+    add("preview_then_real", vec![pv]);
+    v
+}
+
+fn wrap<C>(f: impl Fn(&C, &mut CaseCtx) -> Result<(), Fail>) -> impl Fn(&C, &mut CaseCtx) -> Result<(), String> {
+    move |c, ctx| match f(c, ctx) {
+        Ok(()) => Ok(()),
+        Err(Fail { sig, msg }) => ctx.fail_sig(sig, msg),
+    }
+}
+
+/// Does the tree still show the confirmed defect (one new tuple ENSUREd twice)?
+/// Decided once per run by executing the first regression; when it passes, the
+/// generator stops leaving that shape out.
+fn dup_tuple_defect_present() -> bool {
+    let r = &regressions()[0];
+    let mut ctx = CaseCtx::default();
+    match run_history(&r.history, &mut ctx) {
+        Err(Fail { sig, .. }) => sig == SIG_DUP_TUPLE,
+        Ok(()) => false,
+    }
+}
 
 pub fn run(r: &mut Runner) {
-    r.inconclusive("C17 is not built yet");
+    r.assume("statements are executed one at a time through one system session; readers concurrent with a writer (lock-level interleavings of the nexus RwLock) are not explored by this check");
+    r.assume("a row in state `pending` is by itself no violation (tx.rs documents shells as invisible and swept at open); it becomes one when a query, a META command or a later statement can tell it is there");
+    r.assume("SEARCH relevance scores are not compared (they depend on corpus statistics); the set of hits is");
+    r.assume("the idempotency key of a statement is journalled, a resend re-executes (DESCRIBE CAPABILITIES: recorded_not_replayed; pinned by tests/kml.rs)");
+    r.set_case_timeout_ms(180_000);
+    let exclude = if r.is_replay() { true } else { dup_tuple_defect_present() };
+    r.extra("same_new_tuple_twice_excluded_by_construction", serde_json::json!(exclude));
+    r.sub_enum(
+        "regressions",
+        "fixed histories: the seed block, one statement under test (same new tuple ENSUREd / ASSERTed twice in one block; duplicate key, upsert-miss twice, cross-space endpoint refused at commit; failing guard / unknown type / missing successor refused while planning after other clauses staged; five clauses on one element; dry run + idempotent resend; PREVIEW KML), then seven follow-ups that probe for leftovers (same tuple again, fresh key, key hit, plain create, UPDATE of a leftover shell by id, guarded update); non-trivial = the statement under test was refused after minting / staging, or committed touching one element from >= 2 clauses",
+        false,
+        regressions(),
+        wrap(|c: &Regression, ctx: &mut CaseCtx| run_history(&c.history, ctx)),
+    );
+    r.sub(
+        "histories",
+        "the seed block, then 4-20 generated statements (1-6 clauses of 17 clause kinds over 5 concept types, 6 keys, 5 predicates; references to handles of the same block, forward and backward, or to existing elements; UPSERT / ENSURE hits and misses; EXPECT VERSION / EXPECT STATE guards that hold or fail; ~40% carry one clause built to be refused - 23 kinds, parse / plan pass 0-2 / commit - at a random position; ~30% aim 2-5 more clauses at one element; ids as parameters or literals; 40% preceded by or replaced with a dry run / PREVIEW KML; 25% carry an idempotency key; 12% are sent twice), executed on two worlds; non-trivial = a multi-clause statement refused after a clause had minted a shell or staged a change, or a committed statement touching one element from >= 2 clauses",
+        (560, 11_200),
+        move || history_s(exclude),
+        wrap(run_history),
+    );
 }
